@@ -73,7 +73,7 @@ Occupied(S) == {<<x.s, x.r, x.c>> : x \in S}
 Cells0 == {x \in Grid : <<x.s, x.r, x.c>> \notin Occupied(Formulas \cup Others)} \cup Formulas \cup Others
 
 Rowh0 == {<<2, 40>>, <<4, 60>>}
-Colw0 == {<<1, 120>>, <<3, 50>>}
+Colw0 == {<<1, 120>>, <<3, 50>>, <<4, 50>>}     \* columns 3-4 share one descriptor
 Links0 == {<<1, 2>>, <<3, 3>>, <<4, 1>>, <<5, 3>>}    \* (5,3) holds a URL: the engine links it by itself
 Cf0 == [r1 |-> 2, c1 |-> 2, r2 |-> 3, c2 |-> 4, st |-> "ok", fref |-> CellRef(1, 5, 5, TRUE, TRUE)]
 SInit ==
@@ -161,8 +161,9 @@ Apply(axis, sig, op, i, n, d, a) ==
   /\ cells' = P(P(P(
                 { MoveCell([x EXCEPT !.v = DisplaceContent(x.v, axis, sig, op, i, n, d, blank)], axis, IF x.s = 1 THEN sig[Coord(x, axis)] ELSE Coord(x, axis))
                   : x \in {y \in cells : y.s # 1 \/ sig[Coord(y, axis)] # Bottom} })))
-  /\ rowh' = IF axis = "r" THEN {<<sig[p[1]], p[2]>> : p \in {q \in rowh : sig[q[1]] # Bottom}} ELSE rowh
-  /\ colw' = IF axis = "c" THEN {<<sig[p[1]], p[2]>> : p \in {q \in colw : sig[q[1]] # Bottom}} ELSE colw
+  \* (the size of a freshly inserted row / column is left open: 0)
+  /\ rowh' = IF axis = "r" THEN {<<sig[p[1]], p[2]>> : p \in {q \in rowh : sig[q[1]] # Bottom}} \cup (IF op = "ins" THEN {<<p, 0>> : p \in i..(i + n - 1)} ELSE {}) ELSE rowh
+  /\ colw' = IF axis = "c" THEN {<<sig[p[1]], p[2]>> : p \in {q \in colw : sig[q[1]] # Bottom}} \cup (IF op = "ins" THEN {<<p, 0>> : p \in i..(i + n - 1)} ELSE {}) ELSE colw
   /\ links' = IF axis = "r" THEN {<<sig[p[1]], p[2]>> : p \in {q \in links : sig[q[1]] # Bottom}}
               ELSE {<<p[1], sig[p[2]]>> : p \in {q \in links : sig[q[2]] # Bottom}}
   /\ cf' = LET asRange == RangeRef(1, cf.r1, cf.c1, cf.r2, cf.c2, FALSE, FALSE, FALSE, FALSE)
